@@ -223,7 +223,19 @@ class SocketServer_Multiplex(object):
                 break
 
     def combine_loop(self, server):
-        for sock in server.sockets:
-            self.selector.register(sock, selectors.EVENT_READ, server)
+        other = getattr(server, "selector", None)
+        if other is not None and other is not self.selector and hasattr(other, "get_map"):
+            # everything the other loop serves comes along, and stays with the server it belongs to:
+            # its own sockets and those of servers that were combined into it (or it into them) before
+            keys = list(other.get_map().values())
+            for key in keys:
+                self.selector.register(key.fileobj, selectors.EVENT_READ, key.data)
+            for owner in {id(key.data): key.data for key in keys}.values():
+                if hasattr(owner, "selector"):
+                    owner.selector = self.selector
+                    owner.selector_is_shared = True
+        else:
+            for sock in server.sockets:
+                self.selector.register(sock, selectors.EVENT_READ, server)
         server.selector = self.selector
         server.selector_is_shared = True
